@@ -3,6 +3,7 @@ package multiplex
 import (
 	"errors"
 	"github.com/cbeuw/Cloak/internal/common"
+	"github.com/cbeuw/Cloak/internal/verifhook"
 	log "github.com/sirupsen/logrus"
 	"math/rand/v2"
 	"net"
@@ -55,6 +56,7 @@ var errBrokenSwitchboard = errors.New("the switchboard is broken")
 
 func (sb *switchboard) addConn(conn net.Conn) {
 	connId := atomic.AddUint32(&sb.connsCount, 1) - 1
+	verifhook.At("sb.addConn.counted", uint64(connId))
 	sb.conns.Store(connId, conn)
 	go sb.deplex(conn)
 }
@@ -121,6 +123,9 @@ func (sb *switchboard) pickRandConn() (net.Conn, error) {
 	randReader := sb.randPool.Get().(*rand.Rand)
 	connId := randReader.Uint32N(connsCount)
 	sb.randPool.Put(randReader)
+	if id, ok := verifhook.Pick(connsCount); ok {
+		connId = id
+	}
 
 	ret, ok := sb.conns.Load(connId)
 	if !ok {
